@@ -58,6 +58,8 @@ def make_plan(seed: int, tier: str) -> dict:
     else:
         cfg["burn_in_step_power"] = st.choice([0.8, 1.0, 0.5000001, 0.65, round(st.uniform(0.51, 1.0), 3)])
     cfg["decisions"] = {k: v for k, v in cfg["decisions"].items() if int(k) <= n_iter}
+    if cfg.get("n_burn_in_iter") is not None and not cfg.get("annealing") and st.bernoulli(0.3):
+        cfg["via_load_parameters"] = True
     ann = cfg.get("annealing")
     if ann:
         # (n_iter was re-drawn above) keep the tempered configuration admissible: at least n_plateau - 1 annealing iterations
